@@ -422,6 +422,7 @@ func (f *Frame) nameVal(v *Val, hint string) *Val {
 	if changed {
 		r = valFromLeavesOrShape(v, ls, f.E.Mode)
 		r.Lit = v.Lit
+		r.Boxed = v.Boxed
 	} else {
 		r = v
 	}
